@@ -32,6 +32,24 @@ pub fn looks_like_scheme(bytes: &[u8]) -> bool {
 	false
 }
 
+/// Checks if the first segment of the input path contains a `:`.
+///
+/// Such a path cannot start a relative reference (its first segment must be
+/// a `segment-nz-nc`): what precedes the `:` would be read as a scheme, or
+/// the reference would be ill-formed if it is not a valid scheme.
+#[inline]
+pub fn first_segment_has_colon(bytes: &[u8]) -> bool {
+	for &b in bytes {
+		match b {
+			b':' => return true,
+			b'/' => return false,
+			_ => (),
+		}
+	}
+
+	false
+}
+
 #[derive(Debug, PartialEq, Eq)]
 pub enum SchemeAuthorityOrPath {
 	Scheme,
